@@ -32,17 +32,21 @@ METHOD_NAMES = ["get", "set", "make", "create", "build", "compute", "apply", "ru
 PROFILES = {
     # what the generator may use so that the named backend(s) accept the program
     "c": dict(option=True, callbacks=True, static_slices=True, strs=True, owned_slices=True, utf8strs=False),
-    "cpp": dict(option=True, callbacks=True, static_slices=True, strs=True, owned_slices=True, utf8strs=False),
+    # cb_*: callback shapes. The cpp runtime's fn_traits converts only AsFFI-able and (8-bit) string_view arguments and no
+    # return value (C09 known finding cpp|callback-shape-not-converted): the generator steers around the other shapes there.
+    "cpp": dict(option=True, callbacks=True, static_slices=True, strs=True, owned_slices=True, utf8strs=False,
+                cb_opt=False, cb_slices=False, cb_str16=False, cb_box=False, cb_ret_custom=False),
     "js": dict(option=True, callbacks=False, static_slices=False, strs=False, owned_slices=True, utf8strs=False),
     "dart": dict(option=True, callbacks=False, static_slices=False, strs=False, owned_slices=True, utf8strs=False),
-    "kotlin": dict(option=False, callbacks=True, static_slices=True, strs=False, owned_slices=True, utf8strs=False),
+    "kotlin": dict(option=False, callbacks=True, static_slices=True, strs=False, owned_slices=True, utf8strs=False, cb_strs=False, cb_str16=False),
     "nanobind": dict(option=True, callbacks=True, static_slices=True, strs=False, owned_slices=True, utf8strs=False),
     "demo_gen": dict(option=True, callbacks=False, static_slices=False, strs=False, owned_slices=True, utf8strs=False),
 }
 
 
 def profile_for(backends, **over):
-    p = dict(option=True, callbacks=True, static_slices=True, strs=True, owned_slices=True, utf8strs=True)
+    p = dict(option=True, callbacks=True, static_slices=True, strs=True, owned_slices=True, utf8strs=True,
+             cb_opt=True, cb_slices=True, cb_strs=True, cb_str16=True, cb_box=True, cb_ret_custom=True)
     for b in backends:
         for k, v in PROFILES[b].items():
             p[k] = p[k] and v
@@ -50,7 +54,7 @@ def profile_for(backends, **over):
                   by_value_self=True, struct_slices=True, mut_slices=True, str16=True, opt_slices=True,
                   max_types=8, max_methods=4, modules=1, floats=True, struct_borrows=True, nested_structs=True,
                   opt_fields=True, enum_methods=True, struct_methods=True, neg_discriminants=True,
-                  zst=False, ordering=False))
+                  zst=False, ordering=False, cb_rich=True))
     p.update(over)
     return p
 
@@ -373,9 +377,51 @@ def output_types(draw, u, lt, inner=False):
 
 @st.composite
 def callback_types(draw, u):
+    p = u.p
     n = draw(st.integers(0, 3))
-    ins = [draw(input_types(u, [], in_callback=True)) for _ in range(n)]
-    out = draw(st.one_of(st.just(["unit"]), prims(u.p).map(lambda x: ["prim", x])))
+    if not p.get("cb_rich"):
+        ins = [draw(input_types(u, [], in_callback=True)) for _ in range(n)]
+        out = draw(st.one_of(st.just(["unit"]), prims(p).map(lambda x: ["prim", x])))
+        return ["cb", ins, out, draw(st.booleans())]
+    # the wider grammar lowering accepts: arguments are lowered as output types (Rust hands them to the foreign function),
+    # the answer as an input type
+    plain_structs = [s for s in u.structs if s["fields"] and not s.get("lifetimes")]
+
+    def one(direction):
+        custom = direction == "arg" or p.get("cb_ret_custom", True)
+        opts = ["prim", "prim"]
+        if custom:
+            opts += (["enum"] if u.enums else []) + (["struct"] if plain_structs else [])
+        if p["option"] and p.get("cb_opt", True) and custom:
+            opts += ["optprim"] + (["optenum"] if u.enums else []) + (["optstruct"] if plain_structs else [])
+        if direction == "arg":
+            if p.get("cb_slices", True):
+                opts += ["slice"]
+            if p.get("cb_strs", True):
+                opts += ["str"]
+            if p.get("cb_box", True) and u.opaques:
+                opts += ["box"]
+        k = draw(st.sampled_from(opts))
+        sp = draw(st.sampled_from(["std", "std", "dip"])) if p.get("dip_spelling", True) else "std"
+        if k in ("prim", "optprim"):
+            t = ["prim", draw(prims(p))]
+        elif k in ("enum", "optenum"):
+            t = ["enum", draw(st.sampled_from(u.enums))["name"]]
+        elif k in ("struct", "optstruct"):
+            t = ["struct", draw(st.sampled_from(plain_structs))["name"], []]
+        elif k == "slice":
+            return ["slice", None, False, draw(slice_prims(p)), sp]
+        elif k == "str":
+            encs = ["utf8", "str8"] + (["str16"] if p.get("str16", True) and p.get("cb_str16", True) else [])
+            return ["str", None, draw(st.sampled_from(encs)), sp]
+        elif k == "box":
+            cand = [o for o in u.opaques if not o.get("lifetimes")]
+            if not cand:
+                return ["prim", draw(prims(p))]
+            return ["box", draw(st.sampled_from(cand))["name"], []]
+        return ["opt", t, sp] if k.startswith("opt") else t
+    ins = [one("arg") for _ in range(n)]
+    out = ["unit"] if draw(st.integers(0, 3)) == 0 else one("ret")
     return ["cb", ins, out, draw(st.booleans())]
 
 
@@ -410,7 +456,7 @@ def methods(draw, u, it, name):
     pnames = draw(unique_idents(p, n + 1, avoid=["self", "this"], position="param"))
     params = []
     for i in range(n):
-        if p["callbacks"] and draw(st.integers(0, 9)) == 0:
+        if p["callbacks"] and draw(st.integers(0, p.get("cb_rate", 10) - 1)) == 0:
             ty = draw(callback_types(u))
         else:
             ty = draw(input_types(u, lt_pool))
